@@ -129,7 +129,7 @@ func genC05(t *rapid.T) C05Case {
 		MaxArity: rapid.IntRange(2, arityMax(5, 8)).Draw(t, "maxarity"),
 		Custom:   true, Consts: true, Aliases: true, BoolW: 8, VarW: 14,
 	}}
-	tree := wrapRoot(g.Expr(rootTy(t), g.Depth))
+	tree := wrapRoot(g.Program(rootTy(t)))
 	fixEmptyLists(tree)
 	u := UniverseFor(t, tree, false)
 	repairNonFailing(tree, u)
